@@ -1,6 +1,6 @@
 /-
 C10 — model of the Go manifest package (sdk/go/manifest/manifest.go) as it is now (after the
-`fix:` commits 584d30b firstBlock and d559316 EscapeName): UnescapeName/EscapeName,
+`fix:` commits 584d30b firstBlock, d559316 EscapeName, 4f92334 / b1a09e4 parseManifestStream): UnescapeName/EscapeName,
 parseManifestStream, firstBlock (the binary search as written, `-1` and the index panic explicit),
 sendFileSegmentIterByName (its two `panic`s are the outcome `Res.panic`), segment, normalizedText,
 manifestTextForPath / Extract, and the helpers path.Clean / fixStreamName / splitPath.
@@ -207,15 +207,18 @@ def offsetsFrom : Nat → List Loc → List Nat
   | acc, [] => [acc]
   | acc, b :: rest => acc :: offsetsFrom ((acc + b.size) % two64) rest
 
-/-- the file-token loop of `parseManifestStream`: stops at the first bad token -/
-def pkgFileToks (total : Nat) : List Bytes → List FTok × Bool
+/-- the file-token loop of `parseManifestStream`: stops at the first bad token. After fix 4f92334
+the range test is `SegPos > streamoffset || SegLen > streamoffset-SegPos` (no uint64 wrap); after
+fix b1a09e4 a non-empty token whose combined path `fixStreamName` would alter is an error. -/
+def pkgFileToks (sname : Bytes) (total : Nat) : List Bytes → List FTok × Bool
   | [] => ([], false)
   | t :: rest =>
     match pkgFileTok t with
     | none => ([], true)
     | some f =>
-      if (f.pos + f.len) % two64 > total then ([], true)
-      else let (fs, e) := pkgFileToks total rest; (f :: fs, e)
+      if f.pos > total ∨ f.len > total - f.pos then ([], true)
+      else if f.len > 0 ∧ fixStreamName (sname ++ bSlash :: f.name) ≠ sname ++ bSlash :: f.name then ([], true)
+      else let (fs, e) := pkgFileToks sname total rest; (f :: fs, e)
 
 /-- block sizes: `strconv.ParseInt(tokens[1], 10, 0)`; `none` on overflow -/
 def pkgBlocks : List Bytes → Option (List Loc)
@@ -242,7 +245,7 @@ def pkgParseStream (line : Bytes) : PStream :=
     | some blocks =>
       let offs := offsetsFrom 0 blocks
       if ftoks = [] then ⟨name, blocks, offs, [], true⟩ else
-      let (files, e) := pkgFileToks (offs.getLastD 0) ftoks
+      let (files, e) := pkgFileToks name (offs.getLastD 0) ftoks
       ⟨name, blocks, offs, files, e⟩
 
 /-- `StreamIter`: every non-empty line -/
